@@ -292,7 +292,10 @@ impl Property for C12 {
         let texts = texts.chain(edits);
         let fams = if quick { vec![crate::keys::FamId::Tiny, crate::keys::FamId::Wide] } else { crate::keys::ALL_FAMS.to_vec() };
         let hists = fams.into_iter().flat_map(|f| crate::gen::history::exhaustive(f, 1)).map(Case::Hist);
-        Box::new(texts.chain(hists))
+        let shapes = crate::sigshapes::corpus().iter().map(|r| {
+            Case::Text(TextCase { s: format!("enr:{}", crate::refmodel::b64::encode(&r.bytes)), label: format!("sigshape/{}", r.shape) })
+        });
+        Box::new(shapes.chain(texts).chain(hists))
     }
     fn fuzz_plans(&self) -> Vec<(&'static str, u64)> {
         vec![("wire_struct", 20000)]
@@ -362,6 +365,22 @@ impl Property for C12 {
                     let body = t.s.strip_prefix("enr:").unwrap_or(&t.s);
                     let bytes = b64::decode(body).ok_or("reference accepted undecodable text")?;
                     let canon = format!("enr:{}", b64::encode(&bytes));
+                    // the forms of the very object the parser returned (and of its clone, and of the object
+                    // serde returns): canonical whatever spelling the record was parsed from
+                    match libio::parsed_object_forms(kt, &t.s) {
+                        Some(Ok(forms)) => {
+                            for (a, b, j) in forms {
+                                if a != canon || b != canon || j != serde_json::to_string(&canon).unwrap() {
+                                    return Err(format!(
+                                        "[{kt:?}] a record parsed from {:?} renders as to_base64 {a:?} / Display {b:?} / JSON {j}, expected the canonical {canon:?}",
+                                        if t.s.len() > 60 { format!("{}...", &t.s[..60]) } else { t.s.clone() }
+                                    ));
+                                }
+                            }
+                        }
+                        Some(Err(p)) => return Err(format!("[{kt:?}] rendering a parsed record panicked: {p}")),
+                        None => return Err(format!("[{kt:?}] a text that parsed a moment ago no longer parses")),
+                    }
                     match libio::text_forms(kt, &bytes) {
                         Some(Ok((a, b, j))) => {
                             if a != canon {
